@@ -84,7 +84,8 @@ theorem parseLines_stop (CI : CloseIndep L S Good Good2 E) : ∀ (f : Nat) (lp :
               · simp; omega
               · rw [drop_take_line]; exact isLine_take hne
               · exact (hnn.take _).drop _
-              · rw [List.take_take, Nat.min_eq_left (Nat.le_add_right _ _)]; exact hLE.terminated hlt
+              · rw [List.take_take, Nat.min_eq_left (Nat.le_add_right _ _)]
+                exact hLE.joins hlt _ (head?_take_drop _ _ _ (by omega))
             obtain ⟨a1, a2, a3⟩ := ih σ p.i { p with i := p.i + lineLen (p.buf.drop p.i) } herr
               (by show p.i + lineLen (p.buf.drop p.i) ≤ p.buf.length; omega) hnn (Nat.le_add_right _ _)
               (by show 0 < p.i + lineLen (p.buf.drop p.i); omega) hpre' (lineEnd_next p.buf p.i hile) (Or.inr hLE) r p' h hgood
